@@ -508,7 +508,9 @@ class IAsb(object):
             if len(rest) != 2:
                 raise Undec('asb tail')
             pr = rest.pop(0)
-            if not (isinstance(pr, list) and all(isinstance(x, list) and len(x) == 2 and _is_uint(x[0]) for x in pr)):
+            # (the implementation reads a negative integer where an unsigned one is required: an id it does not know)
+            if not (isinstance(pr, list) and all(isinstance(x, list) and len(x) == 2 and isinstance(x[0], int)
+                                                 and not isinstance(x[0], bool) for x in pr)):
                 raise Undec('asb params')
             self.params = [(x[0], x[1]) for x in pr]
         if len(rest) != 1:
@@ -1560,6 +1562,8 @@ def campaign(chk, prop, conf):
     # ---- 2b. structural monitors
     reps = 1 if quick else 4
     two_blocks_monitor(chk, prop, keyhex, conf, reps)
+    eid_normalisation_monitor(chk, prop, keyhex, conf, reps)
+    multi_recipient_monitor(chk, prop, keyhex, conf, reps)
     if conf:
         admin_bcb_monitor(chk, prop, keyhex, reps)
     else:
@@ -1609,7 +1613,7 @@ def install_mac_kw_shim():
     MacMessage.verify_tag = verify_tag
 
 
-def craft_bib_mackw(chk, ib, kek, cek, targets, sec_num, scope, kid=b'kw'):
+def craft_bib_mackw(chk, ib, kek, cek, targets, sec_num, scope, kid=b'kw', recipients=None):
     ''' BIB with COSE_Mac + one AES key-wrap recipient; MAC input (context "MAC") from the Lean model. '''
     from cryptography.hazmat.primitives.keywrap import aes_key_wrap
     source = {'t': 'dtn', 'ssp': b'//node/'.hex()}
@@ -1621,10 +1625,10 @@ def craft_bib_mackw(chk, ib, kek, cek, targets, sec_num, scope, kid=b'kw'):
         reqs.append({'op': 'sec.macinput', 'context': 'MAC', 'prot': PROT_HMAC256.hex(),
                      'ctx': dict(ssrc=source, scope=sc, primary=ib.primary, blocks=ib.blocks, secBlk=sec, tgt=tgt, addlProt='')})
     results = []
-    for ans in chk.driver(reqs):
+    for ans in model(chk, reqs):
         tag = _hmac.new(cek, bytes.fromhex(ans['input']), hashlib.sha256).digest()
-        recip = [b'', {1: -5, 4: kid}, aes_key_wrap(kek, cek)]
-        results.append([(97, cbor2.dumps([PROT_HMAC256, {}, None, tag, [recip]]))])
+        recips = [[b'', {1: -5, 4: rk}, aes_key_wrap(rkek, cek)] for (rk, rkek) in (recipients or [(kid, kek)])]
+        results.append([(97, cbor2.dumps([PROT_HMAC256, {}, None, tag, recips]))])
     sec['btsd'] = build_asb(targets, results, source=source, params=[(5, {k: v for k, v in sc})]).hex()
     return sec
 
@@ -2046,6 +2050,151 @@ def plain_status_report(rng, crc=None):
     return IBundle(rcv.cl.sent[0])
 
 
+def enc_primary(p):
+    """ Independent encoder of a primary block (model JSON) with its CRC. """
+    arr = [p['version'], p['flags'], p['crcType'], eid_cbor(p['dest']), eid_cbor(p['src']), eid_cbor(p['rpt']), list(p['ts']), p['lifetime']]
+    if p['flags'] & 1:
+        arr += [p['fragOff'], p['totalLen']]
+    ct = p['crcType']
+    if not ct:
+        return cbor2.dumps(arr)
+    arr.append(bytes(2 * ct))
+    raw = bytearray(cbor2.dumps(arr))
+    raw[-2 * ct:] = crc_of(ct, raw)
+    return bytes(raw)
+
+
+def eid_text_alterations(text):
+    """ Alterations of dtn EID text that a URL-style codec might normalise away. """
+    out = []
+    if text.endswith(b'/'):
+        out += [('last-slash-to-?', text[:-1] + b'?'), ('last-slash-to-#', text[:-1] + b'#'), ('drop-trailing-slash', text[:-1])]
+    mid = max(3, len(text) // 2)
+    out += [('append-?', text + b'?'), ('append-#', text + b'#'), ('append-?#', text + b'?#'),
+            ('insert-tab', text[:mid] + b'\t' + text[mid:]), ('insert-lf', text[:mid] + b'\n' + text[mid:]),
+            ('insert-cr', text[:mid] + b'\r' + text[mid:]), ('append-space', text + b' '), ('append-slash', text + b'/')]
+    return out
+
+
+def eid_normalisation_monitor(chk, prop, keyhex, conf, reps):
+    """ Alter the text of every covered dtn EID (primary block source / destination / report-to, security source) in ways
+    a decode -> re-encode path could map back to the original; block CRCs are recomputed. Each must be rejected. """
+    rng = chk.rng
+    keys = keys_from_hex(keyhex)
+    kraw = bytes.fromhex(keyhex['enc' if conf else 'mac'])
+    for rep in range(reps):
+        ib, _payload = plain_bundle(rng, chk.tier, extra=rep % 2, payload=b'eid text is covered')
+        if enc_primary(ib.primary) != ib.data[ib.primary_span[0]:ib.primary_span[1]]:
+            chk.count('eid-text:primary-reencoding-not-identical(skipped)')
+            continue
+        n1 = max(b['num'] for b in ib.blocks) + 1
+        sc = [[0, 1], [-1, 1]]
+        if conf:
+            sec, blocks = craft_bcb(chk, ib, kraw, [1], n1, [bytes(rng.getrandbits(8) for _ in range(12))], scope=sc)
+        else:
+            sec, blocks = craft_bib(chk, ib, kraw, [1], n1, scope=sc), ib.blocks
+        accept = bool(rep % 2)
+        rcv = Receiver(keys, accept=accept)
+        good = assemble(ib, insert_before_payload(blocks, [sec]))
+        if not _expect_deliver(chk, prop, 'EID text monitor, unaltered', rcv.feed(good),
+                               dict(keys=keyhex, mode='eid-text', accept=accept, data=good.hex())):
+            continue
+        fields = [('primary ' + k, ib.primary[k]) for k in ('src', 'dest', 'rpt')] + [('security source', IAsb(bytes.fromhex(sec['btsd'])).source)]
+        for where, eid in fields:
+            if eid['t'] != 'dtn':
+                continue
+            text = bytes.fromhex(eid['ssp'])
+            for kind, alt in eid_text_alterations(text):
+                new_eid = {'t': 'dtn', 'ssp': alt.hex()}
+                if where == 'security source':
+                    sec2 = rebuild_asb(sec, lambda c, e=new_eid: c.__setitem__('source', e))
+                    v = assemble(ib, insert_before_payload(blocks, [sec2]))
+                else:
+                    prim = enc_primary(dict(ib.primary, **{where.split()[1]: new_eid}))
+                    v = b'\x9f' + prim + b''.join(enc_canonical(b) for b in insert_before_payload(blocks, [sec])) + b'\xff'
+                out = rcv.feed(v)
+                chk.count('eid-text:%s' % kind)
+                chk.case({'eid': v.hex()}, nontrivial=True)
+                replay = dict(keys=keyhex, mode='eid-text', accept=accept, field=where, alteration=kind, original_text=text.decode('latin1'),
+                              altered_text=alt.decode('latin1'), data=v.hex(), original=good.hex(), expected='must-fail', observed=out.summary())
+                if out.delivered:
+                    if known_eid_norm(alt) == text:
+                        chk.count('eid-text:normalised-away-and-delivered(pre-existing,reported):%s' % kind)
+                        chk.cov.setdefault('pre_existing_eid_normalisation_samples', {}).setdefault(kind, dict(replay, keys=keyhex))
+                    else:
+                        chk.violation('%s:covered-alteration-delivered' % prop,
+                                      'text of the %s EID altered (%s: %r -> %r), re-encoded to the original by the codec: delivered'
+                                      % (where, kind, text.decode('latin1'), alt.decode('latin1')), replay)
+                elif out.ctr is not None and 'receive' in (out.actions or {}) and not out.sec_marked():
+                    chk.violation('%s:failure-not-marked-security' % prop, 'altered EID text rejected without a security reason', replay)
+
+
+def craft_bcb_kw(chk, ib, recipients, cek, targets, sec_num, ivs, scope, blocks=None):
+    """ BCB with COSE_Encrypt (A256GCM) and a list of AES key-wrap recipients [(kid, kek)]; associated data (context
+    "Encrypt") from the Lean model. Returns (bcb block, blocks with ciphertext). """
+    from cryptography.hazmat.primitives.ciphers.aead import AESGCM
+    from cryptography.hazmat.primitives.keywrap import aes_key_wrap
+    source = {'t': 'dtn', 'ssp': b'//node/'.hex()}
+    blocks = [dict(b) for b in (ib.blocks if blocks is None else blocks)]
+    sec = dict(type=12, num=sec_num, flags=1, crcType=0, btsd='', crc=None)
+    sc = [list(x) for x in scope]
+    results = []
+    for t, iv in zip(targets, ivs):
+        tgt = [b for b in blocks if b['num'] == t][0]
+        ans = model(chk, [{'op': 'sec.encinput', 'context': 'Encrypt', 'prot': PROT_A256GCM.hex(),
+                           'ctx': dict(ssrc=source, scope=sc, primary=ib.primary, blocks=blocks, secBlk=sec, tgt=tgt, addlProt='')}])[0]
+        tgt['btsd'] = AESGCM(cek).encrypt(iv, bytes.fromhex(tgt['btsd']), bytes.fromhex(ans['input'])).hex()
+        recips = [[b'', {1: -5, 4: rk}, aes_key_wrap(rkek, cek)] for (rk, rkek) in recipients]
+        results.append([(96, cbor2.dumps([PROT_A256GCM, {5: iv}, None, recips]))])
+    sec['btsd'] = build_asb(targets, results, source=source, params=[(5, {k: v for k, v in sc})]).hex()
+    return sec, blocks
+
+
+def recipient_orders(keyhex, rng):
+    """ Recipient lists: ours = the receiver's key-wrap key under its key id; `kx`/`ky` = key ids the receiver does not have;
+    `kw` with another key = the receiver has the key id but unwrapping fails. (name, list, some recipient is ours) """
+    ours = (b'kw', bytes.fromhex(keyhex['kw']))
+    o1 = (b'kx', bytes(rng.getrandbits(8) for _ in range(32)))
+    o2 = (b'ky', bytes(rng.getrandbits(8) for _ in range(32)))
+    bad = (b'kw', bytes(x ^ 0x33 for x in bytes.fromhex(keyhex['kw'])))
+    return [('ours', [ours], True), ('ours,other', [ours, o1], True), ('other,ours', [o1, ours], True),
+            ('other,ours,other', [o1, ours, o2], True), ('ours,same-kid-other-key', [ours, bad], True),
+            ('same-kid-other-key,ours', [bad, ours], True), ('other,other', [o1, o2], False), ('same-kid-other-key', [bad], False)]
+
+
+def multi_recipient_monitor(chk, prop, keyhex, conf, reps):
+    """ COSE_Encrypt / COSE_Mac with several key-wrap recipients in every order: the block verifies iff SOME recipient
+    is for a key the receiver holds, whatever the position. """
+    rng = chk.rng
+    keys = keys_from_hex(keyhex)
+    if not conf:
+        install_mac_kw_shim()
+    sc = [[0, 1], [-1, 1]]
+    for rep in range(reps):
+        ib, payload = plain_bundle(rng, chk.tier, extra=rep % 2, payload=b'several recipients' if rep == 0 else None)
+        n1 = max(b['num'] for b in ib.blocks) + 1
+        cek = bytes(rng.getrandbits(8) for _ in range(32))
+        for oi, (name, recips, has_ours) in enumerate(recipient_orders(keyhex, rng)):
+            if conf:
+                sec, blocks = craft_bcb_kw(chk, ib, recips, cek, [1], n1, [bytes(rng.getrandbits(8) for _ in range(12))], sc)
+            else:
+                sec, blocks = craft_bib_mackw(chk, ib, None, cek, [1], n1, sc, recipients=recips), ib.blocks
+            data = assemble(ib, insert_before_payload(blocks, [sec]))
+            for accept in ((True, False) if chk.tier != 'quick' else (bool((oi + rep) % 2),)):
+                out = Receiver(keys, accept=accept).feed(data)
+                chk.count('recipients:%s' % name)
+                replay = dict(keys=keyhex, mode='recipients:' + name, accept=accept, data=data.hex(),
+                              recipient_key_ids=[r[0].decode() for r in recips], payload=payload.hex())
+                if has_ours:
+                    if _expect_deliver(chk, prop, 'recipients [%s]: one of them is for a key the receiver holds' % name, out, replay):
+                        chk.cov['traces_validated_against_impl'] += 1
+                        if conf and accept and [b for b in out.delivered_blocks if b[1] == 1][0][2] != payload:
+                            chk.violation('C16:plaintext-not-recovered', 'recipients [%s]: plaintext not recovered' % name,
+                                          dict(replay, observed=out.summary()))
+                else:
+                    _expect_reject(chk, prop, 'no-usable-recipient-delivered', 'recipients [%s]: none is usable by the receiver' % name, out, replay)
+
+
 def json_scope(scope):
     return ','.join('%d:%d' % (k, v) for k, v in scope)
 
@@ -2055,6 +2204,8 @@ def replay_variant(chk, path, prop):
     obj = json.load(open(path))
     r = obj.get('replay', obj)
     rcv = Receiver(keys_from_hex(r['keys'], r.get('receiver_keys', 'same')), accept=bool(r.get('accept')))
+    rcv.ctx._ca_certs = [_sign1_material()['ca']]
+    install_mac_kw_shim()
     out = rcv.feed(bytes.fromhex(r['data']))
     print('signature:', obj.get('signature'))
     print('expected :', r.get('expected'))
